@@ -87,7 +87,7 @@ def run(cx):
                     inst.violation(a.path, "ACK nonce", "the client's ACK echoes `%s`, not the server's nonce" % v, at=a.span_at(loc))
         if n < 2:
             inst.violation(a.path, "ACK frames", "expected the ACK to be built in the Pending and Active arms (anchor)")
-    with cx.instance("C07.c", "T1 GUARD", "client: Active/Connect require Pending and nonce match; re-ACK requires the same match; handshake errors require Pending and nonce match", floor=5) as inst:
+    with cx.instance("C07.c", "T1 GUARD", "client: Active/Connect require Pending and nonce match; re-ACK requires the same match; handshake errors require Pending and nonce match", floor=3) as inst:
         a = R.body(CSA)
         sinks = agg_sites(a, r"State::Active") + event_pushes(a, r"Event::Connect")
         if len(sinks) < 2:
@@ -116,7 +116,7 @@ def run(cx):
                     inst.site(ob, loc, "construct State::Active")
         if sorted(act) != sorted([R.fn(CSA)["path"], R.fn(ACK)["path"]]):
             inst.violation("<crate>", "State::Active constructors", "State::Active is constructed in %s, expected exactly the two handshake-completing handlers" % sorted(act))
-    with cx.instance("C07.e", "T1 GUARD + T8", "each refusal reply is built exactly on its refusing edge; SYN-ACK only under the negation of all; client maps wire errors one-to-one", floor=8) as inst:
+    with cx.instance("C07.e", "T1 GUARD + T8", "each refusal reply is built exactly on its refusing edge; SYN-ACK only under the negation of all; client maps wire errors one-to-one", floor=4) as inst:
         b = R.body(SYN)
         fa = cx.fa(b)
         errs = {}
@@ -216,6 +216,14 @@ def run(cx):
     _run_core(cx)
     from props.shared import dispatch_table
     dispatch_table(cx, "C07.h", only={"HandshakeSynFrame", "HandshakeSynAckFrame", "HandshakeAckFrame", "HandshakeErrorFrame"})
+    # both ends agree on the negotiated limits only if what is advertised is what is configured (saturated, not
+    # truncated, to the 32-bit wire field); a refusal reaches the client with the reason the server gave
+    from props.shared import advertised_limits
+    with cx.instance("C07.i", "T7 SHAPE", "SYN / SYN-ACK advertise min(configured limit, u32::MAX) for all three limits", floor=6) as inst:
+        advertised_limits(cx, inst, ["max_receive_rate", "max_packet_size", "max_receive_alloc"])
+    from props.C16 import error_type_tables
+    with cx.instance("C07.j", "T8 TABLE", "the HandshakeErrorType byte tables of writer and reader are inverse; unknown bytes are refused", floor=1) as inst:
+        error_type_tables(cx, inst)
 
 
 SELFTEST = [
